@@ -78,7 +78,11 @@ func c05Sequential(ev *vlib.Evidence, driver string, idx int) {
 	r := vlib.Rand("C05-seq-"+driver, idx)
 	lw, err := authWorld(driver, idx)
 	if err != nil {
-		panic(err)
+		// A pool that refuses the reference-signed session set-up cannot be
+		// exercised here at all; whether refusing it is right is C04's
+		// question (valid-request-refused), not a verdict on nonces.
+		ev.Inconclusive("session-setup-refused")
+		return
 	}
 	defer lw.w.Close()
 	w := lw.w
@@ -164,7 +168,11 @@ func c05Concurrent(ev *vlib.Evidence, driver string, idx int) {
 	r := vlib.Rand("C05-conc-"+driver, idx)
 	lw, err := authWorld(driver, idx)
 	if err != nil {
-		panic(err)
+		// A pool that refuses the reference-signed session set-up cannot be
+		// exercised here at all; whether refusing it is right is C04's
+		// question (valid-request-refused), not a verdict on nonces.
+		ev.Inconclusive("session-setup-refused")
+		return
 	}
 	defer lw.w.Close()
 	w := lw.w
@@ -270,7 +278,12 @@ func c05Reopen(ev *vlib.Evidence, idx int) {
 	higher := guardedCall(w2.Local, "vipnode_connect", vlib.RefSign(id.Key, "vipnode_connect", id.NodeID, n+1, req), id.NodeID, n+1, req)
 	ev.Case(fmt.Sprintf("reopen %d", idx), true)
 	ev.Count("reopen-cycles", 1)
-	if !first.Accepted || replay.Accepted || lower.Accepted || !higher.Accepted {
+	if !first.Accepted {
+		// nothing was accepted, so nothing can be replayed (whether the refusal is right is C04's question)
+		ev.Inconclusive("session-setup-refused")
+		return
+	}
+	if replay.Accepted || lower.Accepted || !higher.Accepted {
 		ev.Violate("reopen:replay-after-restart", map[string]interface{}{"first": first.Accepted, "replay_accepted": replay.Accepted, "lower_accepted": lower.Accepted, "higher_accepted": higher.Accepted, "errs": []string{fmt.Sprint(first.Err), fmt.Sprint(replay.Err), fmt.Sprint(lower.Err), fmt.Sprint(higher.Err)}})
 	}
 }
